@@ -645,7 +645,7 @@ func c16HexNumbers(text string, rng *rand.Rand) string {
 // u0x upper/lower case) must give the type LLVM reads: equal to the type built
 // from the number, and unequal to the types of the neighbouring numbers.
 func c16NumberSpellings(r *fw.Rec) {
-	nums := []uint64{0, 1, 7, 9, 10, 15, 16, 17, 31, 32, 99, 100, 255, 256, 4096, 65535}
+	nums := []uint64{0, 1, 7, 9, 10, 15, 16, 17, 31, 32, 99, 100, 255, 256, 4096, 65535, 65536, 65537, 1 << 20, 1<<24 - 1}
 	spell := func(n uint64) []string {
 		return []string{fmt.Sprint(n), fmt.Sprintf("0%d", n), fmt.Sprintf("u0x%X", n), fmt.Sprintf("u0x%x", n), fmt.Sprintf("u0x0%X", n)}
 	}
@@ -709,11 +709,27 @@ func c16NumberSpellings(r *fw.Rec) {
 		if t == nil {
 			continue
 		}
-		if llvmType[name] != p.want.String() {
+		// the expected spelling is written by the monitor from the number itself
+		// (not through the library's types, which the change under test may affect)
+		wantStr := ""
+		switch p.kind {
+		case "arr":
+			wantStr = fmt.Sprintf("[%d x i8]", p.n)
+		case "vec":
+			wantStr = fmt.Sprintf("<%d x i8>", p.n)
+		case "svec":
+			wantStr = fmt.Sprintf("<vscale x %d x i8>", p.n)
+		case "ptr":
+			wantStr = fmt.Sprintf("i8 addrspace(%d)*", p.n)
+			if p.n == 0 {
+				wantStr = "i8*"
+			}
+		}
+		if llvmType[name] != wantStr {
 			r.Inconclusive("LLVM reads a probe differently from the monitor's expectation (model at fault): " + p.text)
 			continue
 		}
-		if !t.Equal(p.want) || !p.want.Equal(t) || t.String() != p.want.String() {
+		if !t.Equal(p.want) || !p.want.Equal(t) || t.String() != wantStr || p.want.String() != wantStr {
 			r.Violate(fw.Violation{Key: "number-spelling/" + p.kind, Input: "declare void @f(" + p.text + ")",
 				What: fmt.Sprintf("the type written `%s` (LLVM: %s) is parsed as %s, which is not equal to %s", p.text, llvmType[name], t, p.want)})
 			continue
